@@ -55,6 +55,8 @@ type opCase struct {
 	Seed  int64    `json:"seed"`
 	// Sweep: full 2^32 sweep of a binary 16-bit op: operand a in [Lo,Hi), b all 65536 values (form M, compiler)
 	Sweep bool `json:"sweep,omitempty"`
+	// Pairs: pair forms P2/M2 (two different rows in one function body), Hi tuples per pair
+	Pairs []pairSpec `json:"pairs,omitempty"`
 }
 
 type finding struct {
@@ -65,12 +67,13 @@ type finding struct {
 }
 
 type caseResult struct {
-	Evals    map[string]int64 `json:"evals"`  // "engine/form" -> tuples compared
-	Imms     []string         `json:"imms"`   // immediates exercised (all forms, both engines)
-	Traps    int64            `json:"traps"`  // evaluations whose reference outcome is a trap
-	NaNs     int64            `json:"nans"`   // evaluations with a NaN-class (non-deterministic) reference
-	Lanes    int64            `json:"lanes"`  // lane-level comparisons
-	Checks   int64            `json:"checks"` // consumer verdicts compared (forms Kc/Mc)
+	Evals    map[string]int64 `json:"evals"`         // "engine/form" -> tuples compared
+	Imms     []string         `json:"imms"`          // immediates exercised (all forms, both engines)
+	Traps    int64            `json:"traps"`         // evaluations whose reference outcome is a trap
+	NaNs     int64            `json:"nans"`          // evaluations with a NaN-class (non-deterministic) reference
+	Lanes    int64            `json:"lanes"`         // lane-level comparisons
+	Checks   int64            `json:"checks"`        // consumer verdicts compared (forms Kc/Mc)
+	Pos      map[string]int64 `json:"pos,omitempty"` // pair forms: "engine/first|second/op" -> pair functions
 	Findings []finding        `json:"findings,omitempty"`
 	Sample   any              `json:"sample,omitempty"`
 	Err      string           `json:"err,omitempty"`
@@ -179,6 +182,26 @@ func run(c *core.Ctx) int {
 			}
 		}
 	}
+	// pair forms: two different rows in one function body
+	pairs := choosePairs(core.NewRng(c.Seed, 6), c.Quick())
+	if len(only) > 0 {
+		var f []pairSpec
+		for _, ps := range pairs {
+			if only[ps.A] && only[ps.B] {
+				f = append(f, ps)
+			}
+		}
+		pairs = f
+	}
+	for lo := 0; lo < len(pairs); lo += 8 {
+		hi := lo + 8
+		if hi > len(pairs) {
+			hi = len(pairs)
+		}
+		cases = append(cases, core.J(opCase{Pairs: pairs[lo:hi], Hi: c.N(128, 512), Seed: c.Seed}))
+		caseSeg = append(caseSeg, -1)
+	}
+	c.Extra("pair_functions", len(pairs))
 	c.Extra("cases", len(cases))
 	c.Extra("table_rows", len(wops.Table))
 
@@ -191,11 +214,15 @@ func run(c *core.Ctx) int {
 	}
 	covs := map[string]*cov{}
 	var evals int64
+	pairPos := map[string]int64{}
 	sweepDone := map[string]int{}
 	for i, r := range res {
 		var oc opCase
 		json.Unmarshal(cases[i], &oc)
 		op := wops.ByName(oc.Op)
+		if len(oc.Pairs) > 0 {
+			oc.Op = oc.Pairs[0].A + "+" + oc.Pairs[0].B + "(+more)"
+		}
 		if r.Crash != nil {
 			if r.Crash.Kind == "timeout" {
 				c.Inconclusive("watchdog")
@@ -213,6 +240,23 @@ func run(c *core.Ctx) int {
 		if cr.Err != "" {
 			// the module did not compile / instantiate: either the table or wazero's decoder is wrong
 			c.Violate("harness:"+oc.Op+":"+firstWords(cr.Err), cr.Err, map[string]any{"case": json.RawMessage(cases[i])})
+			continue
+		}
+		if len(oc.Pairs) > 0 {
+			for k, n := range cr.Evals {
+				evals += n
+				c.Count("evals_form_"+k[strings.IndexByte(k, '/')+1:], n)
+				c.Count("evals_engine_"+k[:strings.IndexByte(k, '/')], n)
+			}
+			for k, n := range cr.Pos {
+				pairPos[k] += n
+			}
+			for _, ps := range oc.Pairs {
+				c.Distinct("pair_kinds", wops.ByName(ps.A).Class+"+"+wops.ByName(ps.B).Class)
+			}
+			for _, f := range cr.Findings {
+				c.Violate(f.Sig, f.Detail, map[string]any{"finding": f.Witness, "occurrences_in_case": f.Count, "case": json.RawMessage(cases[i])})
+			}
 			continue
 		}
 		cv := covs[oc.Op]
@@ -279,6 +323,14 @@ func run(c *core.Ctx) int {
 				}
 			}
 		}
+		for _, e := range engines {
+			for _, pos := range []string{"first", "second"} {
+				if pairPos[e+"/"+pos+"/"+op.Name] == 0 {
+					ok = false
+					missing = append(missing, op.Name+":"+e+"/pair-"+pos)
+				}
+			}
+		}
 		if ok && op.Imm == wops.ImmLane && len(cv.imms) != op.ImmLanes {
 			ok = false
 			missing = append(missing, op.Name+":lane-immediates")
@@ -303,6 +355,7 @@ func run(c *core.Ctx) int {
 	c.Assume("NaN results: canonical NaN (either sign) required when no operand is a non-canonical NaN, any arithmetic NaN otherwise; abs/neg/copysign/pmin/pmax/reinterpret/lane moves are bit-exact")
 	c.Assume("extra forms: Kl/Kr (only the first / only the last operand constant) for instructions with >=2 operands; Mxx (one loaded value as both operands) for binary instructions with equal operand types; Mif/Mbr/Msel (0/1 result consumed by if / br_if / select) for tests, comparisons, any_true/all_true; they count as required for the rows they apply to")
 	c.Assume("consumer forms Kc/Mc (required for every row with an i32 or f32 result): the result is consumed inside the guest by i32.ne/eq/lt_u/ge_u/gt_u/le_u/lt_s, i64.extend_i32_u/s+i64.eq, xor+eqz, and after passing through a local, a global, a call parameter and select, against the expected bits from refsem (f32 via i32.reinterpret_f32); results with spec-open NaN bits are skipped")
+	c.Assume("pair forms P2/M2: one function body applies two different rows (both results checked); every row must occur as first and as second instruction on both engines; partners: all rows of the same class and operand shape (quick: all if the group has <=4 rows, else 4 by PRNG), plus rows of the same class with another shape and arbitrary rows by PRNG; trapping operand tuples are not used in pair forms")
 	c.Assume("form K bakes a strided subset of each segment as constants (all tuples for 8-bit and unary 16-bit exhaustive segments); forms P and M run every tuple")
 	code := c.Finish(evals, int64(c.DistinctN("opcodes_covered")),
 		"one evaluation = one executed instruction instance (engine, form, immediate, operand tuple) compared with refsem; distinct = table rows exercised in all three forms on both engines (all lane immediates for lane ops)")
@@ -816,11 +869,15 @@ func child(mode string, in json.RawMessage) any {
 		return caseResult{Err: "bad case: " + err.Error()}
 	}
 	op := wops.ByName(oc.Op)
-	if op == nil {
+	if op == nil && len(oc.Pairs) == 0 {
 		return caseResult{Err: "unknown op " + oc.Op}
 	}
 	res := &caseResult{Evals: map[string]int64{}}
 	rn := &runner{op: op, oc: &oc, res: res, seen: map[string]int{}}
+	if len(oc.Pairs) > 0 {
+		rn.runPairs()
+		return res
+	}
 	if oc.Sweep {
 		rn.sweep()
 		return res
